@@ -26,13 +26,13 @@
 From Coq Require Import List Arith Bool.
 Import ListNotations.
 
-Inductive content :=
+Inductive pcontent :=
 | CEmpty                (* never written *)
 | CZ (k : nat)          (* compression of the payload of block k *)
 | CRaw (k : nat)        (* the payload of block k itself (not pooled memory) *)
 | CPoison (u : nat).    (* bytes of pool user u *)
 
-Definition content_eqb (a b : content) : bool :=
+Definition pcontent_eqb (a b : pcontent) : bool :=
   match a, b with
   | CEmpty, CEmpty => true
   | CZ i, CZ j | CRaw i, CRaw j | CPoison i, CPoison j => Nat.eqb i j
@@ -41,12 +41,12 @@ Definition content_eqb (a b : content) : bool :=
 
 (* what WriteBlock is asked to do with a block: compress?, and does zstd make it smaller
    (len(finalData) < len(data))? *)
-Record blk := mkBlk { b_compress : bool; b_shrinks : bool }.
+Record pblk := mkPB { b_compress : bool; b_shrinks : bool }.
 
 (* the bytes the index file must hold for block k *)
-Definition expect1 (k : nat) (b : blk) : content :=
+Definition expect1 (k : nat) (b : pblk) : pcontent :=
   if b_compress b && b_shrinks b then CZ k else CRaw k.
-Fixpoint expect_from (k : nat) (bl : list blk) : list content :=
+Fixpoint expect_from (k : nat) (bl : list pblk) : list pcontent :=
   match bl with
   | [] => []
   | b :: r => expect1 k b :: expect_from (S k) r
@@ -56,7 +56,7 @@ Fixpoint expect_from (k : nat) (bl : list blk) : list content :=
 Inductive phase := PStart | PAcqd | PCompd | PSought | PWritten.
 
 Record pstate := mkP {
-  p_heap : nat -> content;        (* memory of every buffer *)
+  p_heap : nat -> pcontent;        (* memory of every buffer *)
   p_free : list nat;              (* buffers in the pool (any of them may be handed out) *)
   p_next : nat;                   (* next fresh buffer *)
   p_held : list (nat * nat);      (* (user, buffer) held by the other pool users, in acquisition order *)
@@ -64,11 +64,11 @@ Record pstate := mkP {
   p_cur : option nat;             (* the sealer's variable [compressed] (stays set after a Release: finalData aliases it) *)
   p_own : bool;                   (* the sealer holds p_cur (acquired, not yet released) *)
   p_k : nat;                      (* number of the block being written *)
-  p_rest : list blk;              (* blocks still to write, the current one first *)
-  p_out : list content            (* what the Write calls put into the index file, in order *)
+  p_rest : list pblk;              (* blocks still to write, the current one first *)
+  p_out : list pcontent            (* what the Write calls put into the index file, in order *)
 }.
 
-Definition pinit (blocks : list blk) : pstate :=
+Definition pinit (blocks : list pblk) : pstate :=
   mkP (fun _ => CEmpty) [] 0 [] PStart None false 0 blocks [].
 
 (* ESeal pick: the sealer performs its next step (pick matters when the step is an Acquire);
@@ -84,16 +84,16 @@ Fixpoint drop_nth {A} (i : nat) (l : list A) : list A :=
   end.
 
 (* sync.Pool.Get + the allocation on a miss: the free buffer at position pick, or a fresh one *)
-Definition take (pick : nat) (free : list nat) (next : nat) : nat * list nat * nat :=
+Definition ptake (pick : nat) (free : list nat) (next : nat) : nat * list nat * nat :=
   match nth_error free pick with
   | Some v => (v, drop_nth pick free, next)
   | None => (next, free, S next)
   end.
 
-Definition upd (h : nat -> content) (v : nat) (c : content) : nat -> content :=
+Definition hupd (h : nat -> pcontent) (v : nat) (c : pcontent) : nat -> pcontent :=
   fun x => if Nat.eqb x v then c else h x.
 
-Definition read_cur (s : pstate) : content :=
+Definition read_cur (s : pstate) : pcontent :=
   match p_cur s with Some v => p_heap s v | None => CEmpty end.
 
 Definition push_cur (s : pstate) : list nat :=
@@ -106,12 +106,12 @@ Definition seal_step (early : bool) (pick : nat) (s : pstate) : pstate :=
       match p_ph s with
       | PStart =>
           if b_compress b then
-            let '(v, fr, nx) := take pick (p_free s) (p_next s) in
+            let '(v, fr, nx) := ptake pick (p_free s) (p_next s) in
             mkP (p_heap s) fr nx (p_held s) PAcqd (Some v) true (p_k s) (p_rest s) (p_out s)
           else (* Seek *)
             mkP (p_heap s) (p_free s) (p_next s) (p_held s) PSought (p_cur s) (p_own s) (p_k s) (p_rest s) (p_out s)
       | PAcqd => (* zstd.CompressLevel(data, compressed.B, level) *)
-          mkP (match p_cur s with Some v => upd (p_heap s) v (CZ (p_k s)) | None => p_heap s end)
+          mkP (match p_cur s with Some v => hupd (p_heap s) v (CZ (p_k s)) | None => p_heap s end)
               (p_free s) (p_next s) (p_held s) PCompd (p_cur s) (p_own s) (p_k s) (p_rest s) (p_out s)
       | PCompd =>
           if early && p_own s then (* the seeded variant: Release before Seek *)
@@ -133,11 +133,11 @@ Definition pstep (early : bool) (s : pstate) (e : pev) : pstate :=
   match e with
   | ESeal pick => seal_step early pick s
   | EAcq u pick =>
-      let '(v, fr, nx) := take pick (p_free s) (p_next s) in
+      let '(v, fr, nx) := ptake pick (p_free s) (p_next s) in
       mkP (p_heap s) fr nx (p_held s ++ [(u, v)]) (p_ph s) (p_cur s) (p_own s) (p_k s) (p_rest s) (p_out s)
   | EFill j =>
       match nth_error (p_held s) j with
-      | Some (u, v) => mkP (upd (p_heap s) v (CPoison u)) (p_free s) (p_next s) (p_held s) (p_ph s) (p_cur s) (p_own s)
+      | Some (u, v) => mkP (hupd (p_heap s) v (CPoison u)) (p_free s) (p_next s) (p_held s) (p_ph s) (p_cur s) (p_own s)
                            (p_k s) (p_rest s) (p_out s)
       | None => s
       end
@@ -149,7 +149,7 @@ Definition pstep (early : bool) (s : pstate) (e : pev) : pstate :=
       end
   end.
 
-Definition prun (early : bool) (blocks : list blk) (sched : list pev) : pstate :=
+Definition prun (early : bool) (blocks : list pblk) (sched : list pev) : pstate :=
   fold_left (pstep early) sched (pinit blocks).
 
 (* the code as it is / the seeded variant *)
@@ -160,7 +160,7 @@ Definition finished (s : pstate) : bool := match p_rest s with [] => true | _ =>
 
 (* number of sealer steps that WriteBlock needs for these blocks (so that a schedule with that many
    ESeal events finishes) *)
-Fixpoint seal_steps (bl : list blk) : nat :=
+Fixpoint seal_steps (bl : list pblk) : nat :=
   match bl with
   | [] => 0
   | b :: r => (if b_compress b then 5 else 2) + seal_steps r
